@@ -18,7 +18,7 @@ def tasks(tier):
 TRUSTED_BASE = TRUSTED_CORE
 ASSUMPTIONS = SCHED_ASSUMPTIONS
 NOT_COVERED = ["'finished (step and output retrieval)' is the ghost field in_step / the BG ghost invariant of the model, not an observation of a real run", 'the closure cache_triggering_ancestors (used by advance_progress for event-triggered consumers) is checked by a bounded stand-in only']
-LEVEL_TEXT = "Ghost assertions C01(a)/(b) at BEGIN (the point where a step's inputs are read) are proved from a global invariant (I0-I5, J', K) that every atomic region of sim_process and its coroutines, advance_progress, schedule_step and notify_dependencies preserve -- for any number of simulators, any topology, any reply values and every interleaving (cut rule at each await); connect_one is proved to store the MINIMUM delay per simulator pair, which is what the wait uses."
+LEVEL_TEXT = "Ghost assertions C01(a)/(b) at BEGIN (the point where a step's inputs are read) are proved from a global invariant (I0-I5, J', K) that every atomic region of sim_process and its coroutines, advance_progress, schedule_step and notify_dependencies preserve -- for any number of simulators, any topology, any reply values and every interleaving (cut rule at each await); connect_one is proved to store the MINIMUM delay per simulator pair, which is what the wait uses. The delay of a connection across group boundaries (group_path, connect_interval) and the arithmetic of tiered times (C08 contracts) are part of this check."
 DESIGN_REF = "DESIGN.md section 8 (C01)"
 LEVEL_NOTE = 'Proved for any number of simulators, any topology, any reply values and every interleaving, under the listed assumptions (evidence: assumptions, coverage.trusted_base). Trusted: pyvc encoder, the rely/guarantee meta-theorem, assumed contracts of asyncio/heapq, the time/delay algebra axioms (C08 provenance), static connection-table facts, z3/cvc5.'
 TECHNIQUE = 'contract-based deductive verification (AST->z3 VCs on the real functions, global invariant, rely/guarantee at awaits)'
